@@ -116,3 +116,20 @@ Print Assumptions C14_distributed_slots_within_tracks.
 Theorem C14_covering_circulation_exists_for_distributed_slots : stmt_circulation_feasible_distributed.
 Proof. exact circulation_feasible_distributed. Qed.
 Print Assumptions C14_covering_circulation_exists_for_distributed_slots.
+
+(** THE DECODING ALGORITHM ITSELF (Decode.v; the graph's in-edge order is an oracle, recorded by the hook and replayed exactly on
+    every run).  "Every flow unit is decoded into exactly one tour": for every loaded network, admissible slot allotment,
+    feasible flow without units running straight from a start depot into an end depot, and EVERY order of the entering
+    units, the loop returns (decode_total), what it returns is a decomposition of the flow — every edge carries exactly as
+    many units as tours use it, and per depot as many tours start as end (decode_decomposes) — and every tour starts at a start
+    depot, ends at an end depot, has an activity in between and only connectable consecutive nodes (decode_tours_shape). *)
+From RS Require Import Decode DecodeStmts DecodeFacts DecodeFacts2.
+Theorem C14_decoding_returns_for_every_feasible_flow : stmt_decode_total.
+Proof. exact decode_total. Qed.
+Print Assumptions C14_decoding_returns_for_every_feasible_flow.
+Theorem C14_every_flow_unit_decoded_into_exactly_one_tour : stmt_decode_decomposes.
+Proof. exact decode_decomposes. Qed.
+Print Assumptions C14_every_flow_unit_decoded_into_exactly_one_tour.
+Theorem C14_decoded_tours_are_connectable_depot_to_depot_paths : stmt_decode_tours_shape.
+Proof. exact decode_tours_shape. Qed.
+Print Assumptions C14_decoded_tours_are_connectable_depot_to_depot_paths.
